@@ -33,6 +33,8 @@ var (
 	flagNoEvid  = flag.Bool("no-evidence", false, "do not write the evidence file")
 	flagBudget  = flag.Int("budget", 0, "solver budget in seconds (0 = tier default)")
 	flagSplit   = flag.Bool("split", false, "debug: split conjunctive goals into one obligation per conjunct")
+	flagBase    = flag.Bool("write-baseline", false, "record the status of every obligation of -prop into baseline_obligations.json (maintainer only; never used by checks)")
+	flagReplay  = flag.String("replay", "", "print a replay file and re-run its concrete replay test, if it has one")
 )
 
 var bindErrs []string
@@ -258,6 +260,9 @@ type Evidence struct {
 func main() {
 	flag.Parse()
 	splitMode = *flagSplit
+	if *flagReplay != "" {
+		os.Exit(rerunReplay(*flagReplay))
+	}
 	t0 := time.Now()
 	os.Exit(run(t0))
 }
@@ -519,6 +524,9 @@ func run(t0 time.Time) int {
 			}
 		}
 	}
+	if *flagBase && prop != "" {
+		writeBaseline(*flagVerif, prop, jobsObls(jobs))
+	}
 	if prop != "" && !*flagNoEvid {
 		writeEvidence(g, prop, results, jobsObls(jobs), nObl, nDis, knownHits, violations, undecided, bySolver, solverSecs, vacChecks, vacOK, wall)
 	}
@@ -714,3 +722,54 @@ func writeEvidence(g *G, prop string, results []*FuncResult, obls []*Obl, nObl, 
 var propAssumptions = map[string][]string{}
 
 var _ = token.NoPos
+
+func writeBaseline(verif, prop string, obls []*Obl) {
+	path := filepath.Join(verif, "baseline_obligations.json")
+	raw := map[string]map[string]string{}
+	if b, err := os.ReadFile(path); err == nil {
+		json.Unmarshal(b, &raw)
+	}
+	m := map[string]string{}
+	for _, o := range obls {
+		if o.Expect != "" {
+			continue
+		}
+		m[o.Name] = o.Res.Status
+	}
+	raw[prop] = m
+	b, _ := json.MarshalIndent(raw, "", " ")
+	os.WriteFile(path, b, 0644)
+}
+
+func rerunReplay(path string) int {
+	b, err := os.ReadFile(path)
+	if err != nil {
+		fmt.Println("cannot read replay file:", err)
+		return 2
+	}
+	var rf ReplayFile
+	if err := json.Unmarshal(b, &rf); err != nil {
+		fmt.Println("bad replay file:", err)
+		return 2
+	}
+	fmt.Printf("replay of %s\n  obligation: %s\n  at: %s\n  status: %s (%s)\n", rf.Property, rf.Obligation, rf.At, rf.Status, rf.Solver)
+	if len(rf.Inputs) > 0 {
+		fmt.Println("  inputs from the solver model:", rf.Inputs)
+	}
+	if len(rf.Path) > 0 {
+		fmt.Println("  path:", rf.Path)
+	}
+	if rf.ReplayTest == "" {
+		fmt.Println("  no concrete replay test is attached (no-failing-input-found); solver output follows")
+		fmt.Println(rf.SolverOut)
+		return 1
+	}
+	out, failed := runReplayTest(rf.ReplayPkg, rf.ReplayTest)
+	fmt.Println(out)
+	if failed {
+		fmt.Printf("VIOLATION property=%s replay=%s\n", rf.Property, path)
+		return 1
+	}
+	fmt.Println("replay test passes on the current tree")
+	return 0
+}
